@@ -94,8 +94,34 @@ def judge_all(ctx, events, scenario_of, module="KeepstoreGCJudge", cfg="Judge_C0
             raise vlib.InfraError("judge: could not parse rejected traces:\n" + r.tail(30))
     ctx.traces_validated += len(traces) - len(rejected)
     for rj in rejected:
-        ctx.classify(rj, scenario_of)
+        head = rj["trace"][0]
+        extra = {"hist_class": hist_class(head, rj["trace"], rj["offset"]) if head.get("mode") == "random" else "none"}
+        ctx.classify(rj, lambda h, extra=extra: dict(scenario_of(h), **extra))
     return len(traces) - len(rejected)
+
+
+def is_lock_probe(scn):
+    """A schedule (from a behaviour that ignores the flock guards) in which one actor is told to pass its
+    lockfile step while the other actor is inside its flock section."""
+    steps = scn["steps"]
+    hold = {}
+    for a, first, inside in (("w", "Touch.lockfile", ("Touch.Chtimes",)),
+                             ("t", "Trash.lockfile", ("Trash.Stat", "Trash.Rename", "Trash.Remove"))):
+        idx = [i for i, st in enumerate(steps) if st["a"] == a and st["l"] == first]
+        if not idx:
+            continue
+        last = idx[0]
+        for i in range(idx[0] + 1, len(steps)):
+            if steps[i]["a"] == a:
+                if steps[i]["l"] in inside and steps[i]["v"] == steps[idx[0]]["v"]:
+                    last = i
+                else:
+                    break
+        hold[a] = (idx[0], last)
+    if len(hold) < 2:
+        return False
+    (w0, w1), (t0, t1) = hold["w"], hold["t"]
+    return w0 < t0 < w1 or t0 < w0 < t1
 
 
 def kf_class(reset):
@@ -116,28 +142,40 @@ def kf_class(reset):
         c = min([pos[k] for k in ("t:Trash.Rename@%d" % v, "t:Trash.Remove@%d" % v) if k in pos], default=None)
         if a is not None and b is not None and c is not None and a < b < c:
             return "C04-1-overwrite-race"
-    # C04-2 in a concurrent schedule: Untrash.Rename on a volume that had a trashed copy and (initially or
-    # through an earlier WriteBlock.Rename) a block file
+    # C04-2 in a concurrent schedule (three requests): on one volume that had a trashed copy, Untrash.Rename runs
+    # while a block file is at the path (there initially, or put there by an earlier WriteBlock.Rename), the
+    # writer timestamps that volume (Touch.Chtimes / WriteBlock.Rename, before or after: Touch and Trash then
+    # hold flocks on different inodes), and Trash.Rename|Remove comes after the Untrash.Rename
     for v in range(1, len(vols) + 1):
         if not vols[v - 1].get("tr"):
             continue
-        u = [i for i, o in enumerate(order) if o == "x:Untrash.Rename@%d" % v]
-        wr = [i for i, o in enumerate(order) if o == "w:WriteBlock.Rename@%d" % v]
-        if u and (vols[v - 1].get("st") != "absent" or (wr and wr[0] < u[0])):
+        first = {}
+        for i, o in enumerate(order):
+            first.setdefault(o, i)
+        u = first.get("x:Untrash.Rename@%d" % v)
+        if u is None:
+            continue
+        wr = first.get("w:WriteBlock.Rename@%d" % v)
+        had_file = vols[v - 1].get("st") != "absent" or (wr is not None and wr < u)
+        ws = [first[k] for k in ("w:Touch.Chtimes@%d" % v, "w:WriteBlock.Rename@%d" % v) if k in first]
+        ts = [i for i, o in enumerate(order) if o in ("t:Trash.Rename@%d" % v, "t:Trash.Remove@%d" % v) and i > u]
+        if had_file and ws and ts:
             return "C04-2-untrash-overwrites"
     return "none"
 
 
-def hist_class(reset, trace):
-    """History class of a sequential random trace.  C04-2-untrash-overwrites: the first scan that shows the block
-    gone from every volume comes after an untrash that ran while a block file and a trashed copy were both
-    present on a writable volume (Untrash renames the trashed copy, with its old timestamp, OVER the block
-    file), with no PUT/TOUCH acknowledged in between."""
+def hist_class(reset, trace, offset):
+    """History class of a rejected sequential random trace (offset = 1-based index of the rejected event).
+    C04-2-untrash-overwrites: the rejected event is a scan, and before it an untrash ran while a block file and a
+    trashed copy were both present on a writable volume (Untrash renames the trashed copy, with its old timestamp,
+    OVER the block file), with no PUT/TOUCH acknowledged between that untrash and the rejected scan."""
     seen = reset.get("vols") or []
     ro = reset.get("ro") or []
     stale = False
     op = None
-    for ev in trace[1:]:
+    for i, ev in enumerate(trace[1:], 2):
+        if i == offset:
+            return "C04-2-untrash-overwrites" if (ev["ev"] == "scan" and stale) else "none"
         if ev["ev"] == "call":
             op = ev["op"]
             if op == "untrash":
@@ -148,11 +186,7 @@ def hist_class(reset, trace):
             if op in ("put", "touch") and ev.get("status") == 200:
                 stale = False
         elif ev["ev"] == "scan":
-            was = any(v["st"] != "absent" for v in seen)
-            gone = all(v["st"] == "absent" for v in ev["vols"])
             seen = ev["vols"]
-            if was and gone:
-                return "C04-2-untrash-overwrites" if stale else "none"
     return "none"
 
 
@@ -169,41 +203,43 @@ def run(ctx):
 
     # GEN: design-level checks
     ctx.tlc(SD, "KeepVolume", "MC_C04.cfg" if ctx.thorough else "MC_C04_quick.cfg", timeout=1500,
-            label="exhaustive: contract obligations (except KF-C04-1), AckedSurvives, lock discipline")
-    r = ctx.tlc(SD, "KeepVolume", "MC_C04_kf.cfg", timeout=600, must_pass=False,
-                label="non-vacuity: without the exclusion TLC finds the overwrite race")
-    if r.violated != "NoViolation":
-        raise vlib.InfraError("MC_C04_kf.cfg was expected to refute NoViolation:\n" + r.tail())
+            label="exhaustive: contract obligations (except KF-C04-1/2), AckedSurvives, lock discipline")
     if ctx.thorough:
+        r = ctx.tlc(SD, "KeepVolume", "MC_C04_kf.cfg", timeout=600, must_pass=False,
+                    label="non-vacuity: without the exclusion TLC finds the overwrite race")
+        if r.violated != "NoViolation":
+            raise vlib.InfraError("MC_C04_kf.cfg was expected to refute NoViolation:\n" + r.tail())
         ctx.tlc(SD, "KeepVolume", "MC_C04_x.cfg", timeout=1500,
-                label="exhaustive with untrash / EmptyTrash as third actor")
+                label="exhaustive with untrash / EmptyTrash as a concurrent request")
 
-    # GEN: scenarios (ids are assigned here: offset per configuration + position)
-    gens = (["Gen_C04_quick.cfg", "Gen_C04_2vol.cfg", "Gen_C04_x.cfg"] if ctx.thorough
-            else ["Gen_C04_quick.cfg", "Gen_C04_2vol_quick.cfg", "Gen_C04_x_quick.cfg"])
-    scns = []
-    for i, cfg in enumerate(gens):
-        more, _ = ctx.gen(SD, "KeepVolume", cfg, timeout=1500, label="schedules " + cfg)
-        for j, s in enumerate(more):
-            s["id"] = (i + 1) * 10 ** 6 + j
-        scns += more
+    # GEN: scenarios (one TLC run; families selected by the spec's GenFilter)
+    scns, _ = ctx.gen(SD, "KeepVolume", "Gen_C04.cfg" if ctx.thorough else "Gen_C04_quick.cfg", timeout=1500,
+                      label="schedules (1 volume; 2 volumes; third actor), partial-order reduced")
+    for j, s in enumerate(scns):
+        s["id"] = 10 ** 6 + j
     rnd = random.Random(ctx.seed)
-    budget = 12000 if ctx.thorough else 1500
-    if len(scns) > budget:
-        keep = [s for s in scns if s["kf"] or s["viol"]][:200]
-        ids = set(s["id"] for s in keep)
-        rest = [s for s in scns if s["id"] not in ids]
-        rnd.shuffle(rest)
-        scns = keep + rest[:budget - len(keep)]
+    budget, kfmax = (6000, 200) if ctx.thorough else (700, 12)
+    probes = [s for s in scns if s.get("nl") and is_lock_probe(s)]
+    scns = [s for s in scns if not s.get("nl")]
+    kfs = [s for s in scns if s["kf"] or s["viol"]]
+    rest = [s for s in scns if not (s["kf"] or s["viol"])]
+    rnd.shuffle(kfs)
+    rnd.shuffle(rest)
+    rnd.shuffle(probes)
+    nprobe = 40 if ctx.thorough else 10
+    for s in probes:
+        s["probe"] = True
+    scns = kfs[:kfmax] + probes[:nprobe] + rest[:max(0, budget - min(len(kfs), kfmax))]
+    ctx.extra["lock_probe_schedules"] = min(len(probes), nprobe)
     ctx.extra["scenarios_emitted"] = len(scns)
     if ctx.thorough:
         # full-granularity schedules (no partial-order reduction, ticks anywhere): seeded simulation
-        sim, _ = ctx.gen(SD, "KeepVolume", "Gen_C04_sim.cfg", timeout=1500, simulate="num=3000", depth=60,
+        sim, _ = ctx.gen(SD, "KeepVolume", "Gen_C04_sim.cfg", timeout=1500, simulate="num=2000", depth=60,
                          label="simulation: full interleavings with ticks")
         for j, s in enumerate(sim):
             s["id"] = 5 * 10 ** 6 + j
         scns += sim
-    nrand = 1500 if ctx.thorough else 250
+    nrand = 1000 if ctx.thorough else 150
     for i in range(nrand):
         scns.append({"id": 9 * 10 ** 6 + i, "mode": "random", "rseed": ctx.seed * 1000003 + i,
                      "len": rnd.randint(3, 12)})
@@ -220,11 +256,14 @@ def run(ctx):
     def scenario_of(head):
         s = dict(by_id.get(head.get("scn")) or {})
         s["kf_class"] = kf_class(head)
-        s["hist_class"] = hist_class(head, by_scn.get(head.get("scn"), [head])) if head.get("mode") == "random" else "none"
         return s
 
     sched = [t for t in traces if t[0].get("mode") != "random"]
-    mism = [t[0] for t in sched if t[0].get("mism") or t[0].get("unused") or t[0].get("blocked") or t[0].get("unknown")]
+    # lock probes are expected to block in the unchanged code; they are not drift
+    mism = [t[0] for t in sched if not (by_id.get(t[0].get("scn")) or {}).get("probe")
+            and (t[0].get("mism") or t[0].get("unused") or t[0].get("blocked") or t[0].get("unknown"))]
+    ctx.extra["lock_probes_blocked"] = sum(1 for t in sched if (by_id.get(t[0].get("scn")) or {}).get("probe")
+                                           and t[0].get("blocked"))
     hangs = [t[0] for t in sched if t[0].get("hang")]
     if mism:
         ctx.drift.append("%d of %d schedules did not follow the model's labels (first scn=%s mism=%s unused=%s "
@@ -278,7 +317,12 @@ def run(ctx):
                        "initial copies count as acknowledged at their stored timestamp",
                        "time unit 1 h: boundaries are never closer than 1 h to the real time a scenario takes",
                        "a timestamp captured by time.Now() one statement before the system call that stores it is "
-                       "treated as taken at the system call"]
+                       "treated as taken at the system call",
+                       "replayed schedules do not tick the clock while a trash-list item, an untrash or an EmptyTrash is "
+                       "in flight (the clock is moved by rewriting stored timestamps; values already read by a request "
+                       "cannot be rewritten); TLC still explores those behaviours at model level (MC configurations)",
+                       "a replica that disappears while an untrash ran since the last scan counts as entitled for a "
+                       "trash-list item (the scan cannot tell which timestamp the untrashed copy had)"]
     ctx.exhaustive = False
 
 
